@@ -369,9 +369,9 @@ func (c *caseT) expect() expectT {
 			out = append(out, x)
 		}
 		e.outs = [][]int{out}
-	case "Throttling", "New":
+	case "Throttling":
 		e.outs = [][]int{append([]int{}, in...)}
-	case "Join":
+	case "Join", "New":
 		var all []int
 		for _, i := range c.Inputs {
 			all = append(all, i...)
